@@ -5,6 +5,7 @@
 import BVM.Proofs.Read
 import BVM.Proofs.SerFrame
 import BVM.Proofs.Oib
+import BVM.Model.Decode
 namespace BVM
 
 /-! ### bits of a buffer in stream order -/
@@ -477,19 +478,6 @@ theorem readMany_congr (bo : ByteOrder) (b1 b2 : Buf) (limit : Nat) (t : TScalar
 
 /-! ### one scalar: align, write, read back -/
 
-/-- what a CTF reader must return for a traced leaf of scalar type `sc`: the value reduced to the field
-    (two's complement for signed integers, the bit pattern for reals), the string itself -/
-def decLeaf (sc : Scalar) (l : Leaf) : Leaf :=
-  match sc with
-  | .int sg sz _ => .num (signExtend sg sz ((l.toInt % (2 : Int) ^ sz).toNat))
-  | .real sz _ => .num ((l.toInt % (2 : Int) ^ sz).toNat)
-  | .str => .str l.bytes
-
-/-- a string argument holds no NUL byte (it is a C string) -/
-def LeafOK (l : Leaf) : Prop := ∀ x ∈ l.bytes, x ≠ 0
-
-instance (l : Leaf) : Decidable (LeafOK l) := by unfold LeafOK; infer_instance
-
 theorem pop_fst (s : SerSt) : s.pop.1 = s.leaves.headD (.num 0) := by
   unfold SerSt.pop; cases s.leaves <;> rfl
 theorem pop_leaves (s : SerSt) : s.pop.2.leaves = s.leaves.tail := by
@@ -667,11 +655,6 @@ theorem oob_false_of (f : SerSt → SerSt) (hf : ∀ s, s.oob = true → (f s).o
   | true => rw [hf s ho] at h; exact absurd h (by simp)
 
 /-! ### leaves -/
-
-/-- the next `k` leaves of an argument list (a missing leaf is the value 0, as `SerSt.pop`) -/
-def takePad : Nat → List Leaf → List Leaf
-  | 0, _ => []
-  | k + 1, ls => ls.headD (.num 0) :: takePad k ls.tail
 
 theorem tail_drop (ls : List Leaf) (a : Nat) : ls.tail.drop a = ls.drop (a + 1) := by
   cases ls <;> simp
@@ -883,22 +866,6 @@ theorem buildMembers_erase : ∀ (ms : List Member) (oib : Option Nat),
   | [], _ => rfl
   | m :: ms, oib => by
     simp only [buildMembers, List.map_cons, buildMember_erase, buildMembers_erase ms]
-
-/-- number of elements of a dynamic array: the value of its length argument, as the generated C reads it -/
-def cntOf (pfx : String) (args : Args) (ln : String) : Nat :=
-  u32 (((args.get (pfx ++ "_" ++ ln)).headD (.num 0)).toInt.toNat)
-
-/-- what a CTF reader must return for member `m` -/
-def decMember (pfx : String) (args : Args) (m : Member) : List Leaf :=
-  match m.ft with
-  | .el e => (takePad e.leafCount (args.get (pfx ++ "_" ++ m.name))).map (decLeaf e.leaf)
-  | .darr ln e => (takePad (cntOf pfx args ln * e.leafCount) (args.get (pfx ++ "_" ++ m.name))).map (decLeaf e.leaf)
-  | .uuid => []
-
-def FT.leaf : FT → Scalar
-  | .el e => e.leaf
-  | .darr _ e => e.leaf
-  | .uuid => .int false 8 8
 
 theorem lensProduct_lits (scope : List (String × List Leaf)) : ∀ e : Elem, lensProduct scope (elemLens e) = some e.leafCount
   | .sc _ => rfl
@@ -1165,14 +1132,6 @@ theorem memberOK_of (S : Struct) (hS : ∃ j, S.align = 2 ^ j) (pfx : String) (a
     | el e => exact pow2_dvd_of_le _ _ hal hS hle
     | darr ln e => exact pow2_dvd_of_le _ _ hal hS hle
     | uuid => exact absurd rfl hnu, hl⟩
-
-/-- executable form of `LenScopeOK` (evaluated by the driver on traced records) -/
-def lenScopeOKb (pfx : String) (args : Args) : List Member → List (String × List Leaf) → Bool
-  | [], _ => true
-  | m :: ms, scope =>
-    (match m.ft with
-     | .darr ln _ => decide (lenValue scope (.ref ln) = some (cntOf pfx args ln))
-     | _ => true) && lenScopeOKb pfx args ms ((m.name, decMember pfx args m) :: scope)
 
 theorem lenScopeOKb_sound (pfx : String) (args : Args) : ∀ (ms : List Member) (scope : List (String × List Leaf)),
     lenScopeOKb pfx args ms scope = true → LenScopeOK pfx args ms scope
